@@ -29,7 +29,7 @@ m = {
     "setup_cmd": "./setup.sh",
     "hooks": {
         "guard": "cargo feature `verif-hooks` (off by default)",
-        "enable": "harness/Cargo.toml depends on adblock = { path = \"/repo\", features = [\"verif-hooks\", \"regex-debug-info\"] }",
+        "enable": "harness/Cargo.toml depends on adblock = { path = \"/repo\", default-features = false, features = [\"verif-hooks\", \"regex-debug-info\", \"embedded-domain-resolver\", \"full-regex-handling\", \"content-blocking\"] }; the harness' own default feature `unsync` turns adblock/unsync-regex-caching back on (C19 builds a second copy without it into harness/target-sync)",
         "baseline_off_cmd": "cd /repo && cargo test --workspace --no-fail-fast --offline",
         "source_commits": HOOK_COMMITS,
         "add_only": True,
